@@ -752,6 +752,7 @@ func runC14(p *Program, r *Report) {
 	c14render(p, r, "C14.render")
 	c14client(p, r, "C14.client")
 	c14side(p, r, "C14.side")
+	c14sideUse(p, r, "C14.side.use")
 	c14use(p, r, "C14.use")
 	c14parse(p, r, "C14.parse")
 	cTokens(p, r, "C14.tokens")
@@ -1101,8 +1102,9 @@ func c14side(p *Program, r *Report, rule string) {
 		{"msgReader.flateContextTakeover", "serverNoContextTakeover", "clientNoContextTakeover"},
 		{"msgWriter.flateContextTakeover", "clientNoContextTakeover", "serverNoContextTakeover"},
 	} {
-		fn := p.Func(s.fn)
+		fn := p.FuncOpt(s.fn)
 		if fn == nil {
+			r.Note("%s: helper %s not present; the decision is checked at its use sites (C14.side.use)", rule, s.fn)
 			continue
 		}
 		s := s
@@ -1123,6 +1125,80 @@ func c14side(p *Program, r *Report, rule string) {
 				return []string{fmt.Sprint(!v.Bool("compressionOptions." + f))}
 			},
 			What: "RFC 7692 §7.1.1: a *_no_context_takeover parameter constrains the sender it names: the client's reader and the server's writer follow server_no_context_takeover, the server's reader and the client's writer follow client_no_context_takeover",
+		})
+	}
+}
+
+// c14sideUse: the takeover decision as it is *used*: the reader's dictionary argument and the writer's
+// per-message reset, with every library helper inlined (independent of how the decision is factored).
+func c14sideUse(p *Program, r *Report, rule string) {
+	atoms := []Atom{boolAtom("Conn.client"), boolAtom("compressionOptions.clientNoContextTakeover"), boolAtom("compressionOptions.serverNoContextTakeover")}
+	inl := p.inlineAllExcept("getFlateReader", "getBufioReader", "slidingWindow.init", "putFlateWriter", "msgWriter.putFlateWriter", "Conn.writeFrame", "mu.lock", "mu.unlock", "errd.Wrap", "putFlateReader")
+	if fn := p.Func("msgReader.resetFlate"); fn != nil {
+		p.runTable(r, tableSpec{
+			Rule: rule + ".reader", Fn: fn, Atoms: atoms, Inline: inl,
+			Classify: func(v Valuation, pa *Path) string {
+				gf := pa.Calls("getFlateReader")
+				if len(gf) != 1 {
+					return fmt.Sprintf("%d getFlateReader calls", len(gf))
+				}
+				ci, ok := gf[0].Instr.(ssa.CallInstruction)
+				if !ok {
+					return "?"
+				}
+				if c, isC := ci.Common().Args[1].(*ssa.Const); isC && c.Value == nil {
+					return "NO-DICTIONARY"
+				}
+				return "DICTIONARY"
+			},
+			Oracle: func(v Valuation) []string {
+				nct := v.Bool("compressionOptions.clientNoContextTakeover") // the peer's (sender's) flag: the client sends to a server
+				if v.Bool("Conn.client") {
+					nct = v.Bool("compressionOptions.serverNoContextTakeover")
+				}
+				if nct {
+					return []string{"NO-DICTIONARY"}
+				}
+				return []string{"DICTIONARY"}
+			},
+			What: "RFC 7692 §7.1.1: the reader keeps the peer's LZ77 window iff the peer (the sender) did not agree to no_context_takeover: a client reads what the server sent (server_no_context_takeover), a server what the client sent (client_no_context_takeover)",
+		})
+	}
+	if fn := p.Func("msgWriter.Close"); fn != nil {
+		p.runTable(r, tableSpec{
+			Rule: rule + ".writer", Fn: fn, Inline: inl,
+			Atoms: append(append([]Atom{}, atoms...), boolAtom("msgWriter.flate"), boolAtom("msgWriter.closed")),
+			Decide: func(v Valuation) func(string, AV) (bool, bool) {
+				return func(key string, cond AV) (bool, bool) {
+					if strings.HasPrefix(key, "(call:mu.lock@") || strings.HasPrefix(key, "(call:Conn.writeFrame@") || strings.HasPrefix(key, "(call:(*flate.Writer).Flush@") {
+						return true, true
+					}
+					return false, false
+				}
+			},
+			Classify: func(v Valuation, pa *Path) string {
+				if v.Bool("msgWriter.closed") {
+					return "ALREADY-CLOSED"
+				}
+				if len(pa.Calls("msgWriter.putFlateWriter"))+len(pa.Calls("putFlateWriter")) > 0 {
+					return "RESET"
+				}
+				return "KEEP"
+			},
+			Oracle: func(v Valuation) []string {
+				if v.Bool("msgWriter.closed") {
+					return []string{"ALREADY-CLOSED"}
+				}
+				nct := v.Bool("compressionOptions.serverNoContextTakeover")
+				if v.Bool("Conn.client") {
+					nct = v.Bool("compressionOptions.clientNoContextTakeover")
+				}
+				if v.Bool("msgWriter.flate") && nct {
+					return []string{"RESET"}
+				}
+				return []string{"KEEP"}
+			},
+			What: "RFC 7692 §7.1.1: the writer drops its compression context after a compressed message iff it agreed to its own no_context_takeover (client_… for a client, server_… for a server)",
 		})
 	}
 }
